@@ -21,7 +21,6 @@ MODEL_FILES = ['MaltModel/Rt/Dedent.lean', 'MaltModel/Rt/Lambda.lean', 'MaltMode
 CLS_INSIDE = 'backslash_newline_inside_string_or_comment'
 CLS_JOIN = 'backslash_newline_joins_adjacent_tokens'
 CLS_INDENT = 'backslash_newline_in_indentation'
-CLS_POSONLY = 'lambda_posonly_signature_ambiguity'
 CLS_STRLINE = 'lambda_first_line_inside_multiline_string'
 
 
@@ -548,7 +547,6 @@ class Checker:
             self.hist['lambda:spanning=%s' % (len(spanning) if len(spanning) < 4 else '4+')] += 1
             case = {'kind': 'lambda', 'module': text, 'tag': t, 'def_line': def_line, 'true_id': true_node._c15_id,
                     'true_node': [true_node.lineno, true_node.col_offset], 'lambda': ast.unparse(true_node)}
-            py_amb = bool(true_node.args.posonlyargs) and len(spanning) > 1
             failures = []
             if real[0] == 'ok':
                 if real[1] != true_node._c15_id or real_dump != ast.dump(true_node):
@@ -583,7 +581,7 @@ class Checker:
             if len(run.samples) < 4 and len(spanning) > 1 and real[0] == 'ok' and not failures:
                 run.sample({'kind': 'lambda', 'line': text.split('\n')[def_line - 1], 'recovered': ast.unparse(true_node), 'behaviour': beh})
             spec = inspect.getfullargspec(fn)
-            # the CPython facts C15_lambda_partial takes as hypotheses, checked on this case
+            # the CPython facts C15_lambda takes as hypotheses, checked on this case
             a_ = true_node.args
             facts = {
                 'creating node starts at co_firstlineno': true_node.lineno == def_line,
@@ -601,16 +599,14 @@ class Checker:
             self.ncorr['cpython-facts'] += 1
             in_search = any(true_node in lams for ln, lams in tops if ln <= def_line)
             self.hist['lambda:creating-node-%s-the-searched-statements' % ('in' if in_search else 'NOT-in')] += 1
-            if in_search and all(facts.values()) and not py_amb and real[0] == 'ok' and real[1] != true_node._c15_id:
+            if in_search and all(facts.values()) and real[0] == 'ok' and real[1] != true_node._c15_id:
                 self.disagree('theorem-instance-lambda', {'lambda': case['lambda'], 'real': list(real)})
             opt = lambda x: ['none'] if x is None else ['some', x]
             spec_sx = sexp([list(spec.args), opt(spec.varargs), opt(spec.varkw), list(spec.kwonlyargs)])
 
-            def finish(amb, model_sel, failures=failures, case=case, real=real):
+            def finish(failures=failures, case=case, real=real):
                 for what, extra in failures:
-                    cls = CLS_POSONLY if amb else None
-                    if cls and model_sel is not None and real[0] == 'ok' and model_sel != ['ok', str(real[1])]:
-                        cls = None      # not the selection the model of the pinned code makes
+                    cls = None          # a wrong lambda has no listed excuse (C15_lambda holds without hypothesis)
                     if extra.get('beh') == 'conversion-raised':
                         sl = str_lines['lean'] if str_lines['lean'] is not None else py_str_lines
                         cls = CLS_STRLINE if (case['def_line'] in sl and extra.get('exc') == 'TokenError'
@@ -620,18 +616,16 @@ class Checker:
                     self.class_hist[cls or 'UNCLASSIFIED'] += 1
                     run.fail(what, dict(case, real_selection=list(real), **extra), cls)
             if run.driver_ok:
-                def cb(a, real=real, case=case, py_amb=py_amb, finish=finish):
+                def cb(a, real=real, case=case, finish=finish):
                     r = parse_sexp(a)
                     self.ncorr['select'] += 1
                     want = ['ok', str(real[1])] if real[0] == 'ok' else real[0]
                     if r[0] != want:
                         self.disagree('select', {'case': {k: v for k, v in case.items() if k != 'module'}, 'implementation': list(real), 'model': r[0]})
-                    if (r[1] == 'True') != py_amb:
-                        self.disagree('class-predicates', {'case': case['lambda'], 'python': py_amb, 'lean': r[1]})
-                    finish(r[1] == 'True', r[0])
+                    finish()
                 self.ask('c15.select %s %d %s %d' % (tops_sx, def_line, spec_sx, true_node._c15_id), cb)
             else:
-                finish(py_amb, None)
+                finish()
 
 
 # --------------------------------------------------------------------------- synthetic dedent inputs
@@ -688,7 +682,7 @@ def check(run, only_case=None):
     run.assumptions += [
         'CPython tokenizer (tokenize.generate_tokens) is an input oracle of the model: its token stream for the unfolded text is passed to the model, not re-derived',
         'same text modulo removal of the block prefix on logical-line starts (and whitespace inside brackets) parses to the same tree: a property of CPython\'s parser, sampled by the ast.dump oracle, not proved',
-        'co_firstlineno / co_positions / inspect.getfullargspec describe the source node that created a function object (CPython facts used as hypotheses of C15_lambda_partial)',
+        'co_firstlineno / co_positions / inspect.getfullargspec describe the source node that created a function object (CPython facts used as hypotheses of C15_lambda)',
         'inspect.findsource / inspect.getblock (used by getimmediatesource) are CPython\'s; they are exercised by the oracle, not modelled',
     ]
     run.build_and_audit('MaltModel.Props.C15', model_files=MODEL_FILES)
@@ -785,8 +779,8 @@ def check(run, only_case=None):
             name = {'spec': 'checker:dedent-spec-on-real-output', 'theorem-instance': 'checker:C15_dedent_text-predicts-real-output',
                     'theorem-instance-unfold': 'checker:C15_unfold_partial-predicts-real-output',
                     'tokens-preserved': 'checker:tokens-preserved-by-unfolding-under-hypotheses',
-                    'cpython-facts': 'assumption:cpython-facts-used-by-C15_lambda_partial-hold-on-every-case',
-                    'theorem-instance-lambda': 'checker:C15_lambda_partial-hypotheses-imply-the-right-lambda',
+                    'cpython-facts': 'assumption:cpython-facts-used-by-C15_lambda-hold-on-every-case',
+                    'theorem-instance-lambda': 'checker:C15_lambda-hypotheses-imply-the-right-lambda',
                     }.get(op, 'correspondence:c15.' + op)
             run.oblige(name, kind, not d, ('%d disagreements; first: ' % len(d)) + json.dumps(shown[:2])[:1500] if d else '')
     else:
